@@ -331,6 +331,10 @@ func c05Lib(i int64, seed uint64, r *fw.Rec) {
 		c05MemberScope(i, seed, r)
 		return
 	}
+	if i%9 == 6 {
+		c05Rebind(i, seed, r)
+		return
+	}
 	rr := prng.New(seed, 0xC05B, uint64(i))
 	f := c05Families[int(i)%len(c05Families)]
 	k := rr.Range(3, 5)
